@@ -4,6 +4,7 @@ Theorems about `Gen/Collection.lean` (re-extracted from collection.py each run) 
 `Model/Select.lean`.
 -/
 import ToastyVerif.Model.Select
+import ToastyVerif.Gen.Plumbing
 
 namespace C20
 open Select
@@ -98,5 +99,9 @@ theorem desc_img_same : Gen.Scan.desc_and_images_share_scan = true ∧ Gen.Scan.
 example : select (.list [2, 1]) 1 [⟨true, 0, false⟩, ⟨true, 2, false⟩, ⟨false, 0, true⟩] = .ok 1 1 := by decide
 example : select (.list [2, 1]) 0 [⟨true, 0, false⟩, ⟨true, 2, false⟩, ⟨false, 0, true⟩] = .rejectedTable := by decide
 example : select .guess 0 [⟨true, 0, false⟩, ⟨false, 0, true⟩, ⟨true, 2, false⟩, ⟨true, 3, false⟩] = .ok 2 2 := by decide
+
+/-- **entry_points**: the call sites through which this property's workflows reach the modelled functions have, in the source as
+it is now, the argument plumbing the model assumes (facts re-extracted on every run, `Gen/Plumbing.lean`) -/
+theorem entry_points : Gen.Plumbing.cli_view_passes_paths_through = true ∧ Gen.Plumbing.collection_loader_attributes = true := by decide
 
 end C20
